@@ -1,6 +1,8 @@
 pub mod c02;
+pub mod c03;
 pub mod c04;
 pub mod c07;
+pub mod c14;
 pub mod c17;
 pub mod closure;
 pub mod sessions;
